@@ -25,8 +25,24 @@ def line(rng, op, keylen, pre, pieces):
     return "%s %s%s%s" % (op, pre, key, " ".join(hx(p) for p in pieces))
 
 
+def blake2b_window_cases(rng, tier):
+    """BLAKE2b's update holds back the last (possibly full) block: three updates a | b | c where the first leaves `a` bytes in the
+    128-byte buffer and the second covers every length across several blocks — every (buffer fill, rest mod 128, rest div 128)
+    class of the hold-back arithmetic, each followed by one more update.  Keyed and unkeyed, classic and object API."""
+    cs = []
+    fills = (1, 10, 64, 100, 127, 128) if tier == "quick" else tuple(range(1, 129, 3)) + (128,)
+    for a in fills:
+        dense = a in (10, 100) or tier == "thorough"
+        for b in range(1, 700, 1 if dense else 5):
+            c = (1, 50)[(a + b) % 2]
+            msg = rbytes(rng, a + b + c)
+            op, keylen, pre = [("generichash_inc", 0, "32 "), ("generichash_inc", 32, "64 "), ("generichash_obj", 32, "32 ")][(a + b) % 3]
+            cs.append(Case(line(rng, op, keylen, pre, [msg[:a], msg[a:a + b], msg[a + b:]]), cls="%s/buffer-window" % op))
+    return cs
+
+
 def gen(rng, tier):
-    cs = corpus_cases("C08")
+    cs = corpus_cases("C08") + blake2b_window_cases(rng, tier)
     L2, L3 = (160, 26) if tier == "quick" else (600, 140)
     for op, keylen, pre in OPS:
         step3 = 1
